@@ -711,19 +711,19 @@ func (i *AgentIPC) filterMembers(members []serf.Member, tags map[string]string,
 	// Pre-compile all the regular expressions
 	tagsRe := make(map[string]*regexp.Regexp)
 	for tag, expr := range tags {
-		re, err := regexp.Compile(fmt.Sprintf("^%s$", expr))
+		re, err := regexp.Compile(fmt.Sprintf("^(?:%s)$", expr))
 		if err != nil {
 			return nil, fmt.Errorf("Failed to compile regex: %v", err)
 		}
 		tagsRe[tag] = re
 	}
 
-	statusRe, err := regexp.Compile(fmt.Sprintf("^%s$", status))
+	statusRe, err := regexp.Compile(fmt.Sprintf("^(?:%s)$", status))
 	if err != nil {
 		return nil, fmt.Errorf("Failed to compile regex: %v", err)
 	}
 
-	nameRe, err := regexp.Compile(fmt.Sprintf("^%s$", name))
+	nameRe, err := regexp.Compile(fmt.Sprintf("^(?:%s)$", name))
 	if err != nil {
 		return nil, fmt.Errorf("Failed to compile regex: %v", err)
 	}
